@@ -467,6 +467,14 @@ func runFed(cfg *runCfg, prop string) error {
 					doc.Dist["model:plan2-compared"]++
 				}
 			}
+			if model != "true" && (prop == "C01" || prop == "C04") && len(parsed.Fragments) > 0 && obs.Class == 0 {
+				// the whole request path inside Coq, named fragments included
+				if flat, ferr := graphql.ApplyFragments(op.SelectionSet, parsed.Fragments); ferr == nil {
+					model += fmt.Sprintf(" && fed2_agrees %d %s %s %s %s %s %s %s %s %s %s %d %s", fuel, c.Strs(cs.Fed.Priorities), c.URLMap(fed.Cap.Locs),
+						c.FieldTypes(fed.Cap.Schema), c.FieldShapes(fed.Cap.Schema), w, vars, frags, c.S(root), sels, c.ksels(flat), obs.Class, c.JSON(obs.Data))
+					doc.Dist["model:whole-path-compared-fragments"]++
+				}
+			}
 			if model != "true" && (prop == "C01" || prop == "C04") && len(parsed.Fragments) == 0 && obs.Class == 0 {
 				// the whole request path inside Coq: plan, calls, stitching, scrubbing
 				if flat, ferr := graphql.ApplyFragments(op.SelectionSet, parsed.Fragments); ferr == nil {
